@@ -25,7 +25,8 @@ for line in open(spec).read().split('\n'):
             for i, nm in enumerate(names):
                 if nm in ('self',) or nm.startswith('__'):
                     continue
-                new = re.sub(r'(?<![\w.>@])%s\b(?!@)' % re.escape(nm), '@%s%d@' % (kind, i + 1), new)
+                new = re.sub(r'(?<![\w.>@:])%s\b(?!@)' % re.escape(nm), '@%s%d:%s@' % (kind, i + 1, nm), new)
+                new = re.sub(r'@%s%d@' % (kind, i + 1), '@%s%d:%s@' % (kind, i + 1, nm), new)
         if new != line:
             changed += 1
         line = new
